@@ -183,7 +183,7 @@ class EngineA:
         # a few runs use tensors with several hundred elements, and requests that name several hundred positions
         large = sw.random() < 0.06
         if large:
-            shape = [sw.randint(13, 24), sw.randint(13, 24)] if sw.random() < 0.6 else [sw.randint(6, 9) for _ in range(3)]
+            shape = weighted(sw, [([sw.randint(13, 24), sw.randint(13, 24)], 5), ([sw.randint(6, 9) for _ in range(3)], 3), (sw.choice([[sw.randint(300, 700), 2], [2, sw.randint(300, 700)], [sw.randint(150, 300), 3]]), 3)])
             pattern = weighted(sw, [("empty", 1), ("full", 1), ("random", 4)])
         positions = list(itertools.product(*[range(s) for s in shape]))
         if pattern == "empty":
@@ -219,6 +219,9 @@ class EngineA:
         }
         if sum(cfg["w_ops"].values()) == 0:
             cfg["w_ops"]["w_subs"] = 1
+        if large and max(shape) >= 50:
+            cfg["r_ops"]["r_region"] = 6
+            cfg["w_ops"]["w_region"] = 6
         if large:
             cfg.update({"large": True, "n_steps": sw.randint(3, 9), "p_grow": sw.choice([0.0, 0.05]), "p_ordergrow": 0.0})
         res.init = cfg
@@ -358,6 +361,8 @@ class EngineA:
         if hi < 2:
             return None
         k = g.randint(2, min(hi, 3))
+        if cfg.get("large") and ext >= 50 and g.random() < 0.6:
+            k = g.randint(12, 30)  # a long index list spread over a long mode
         lst = g.sample(range(hi), k)
         if hi > ext and (hi - 1) not in lst:
             lst[0] = hi - 1
@@ -369,7 +374,7 @@ class EngineA:
         key = []
         n_lists = 0
         for d in range(m.order):
-            kind = weighted(g, [("int", 3), ("slice", 4), ("list", 2)])
+            kind = weighted(g, [("int", 3), ("slice", 4), ("list", 2)] if not (cfg.get("large") and m.shape[d] >= 50) else [("int", 1), ("slice", 2), ("list", 6)])
             if kind == "list":
                 lst = self._list(m, d, g, cfg, write)
                 if lst is None:
@@ -522,6 +527,26 @@ class EngineA:
             extra = 0
             if g.random() < cfg["p_ordergrow"] and N < MAX_ORDER:
                 extra = 1
+            if g.random() < 0.08 and m.size() <= 64 and not extra:
+                # the tensor assigned into a region of itself (same shape: reversed, permuted or shifted modes)
+                key = []
+                for d in range(N):
+                    ext = m.shape[d]
+                    # (no growth: a receiver that grows while it is also the right-hand side has no defined meaning)
+                    forms = ["all", "rev"] + (["perm"] if ext >= 2 else [])
+                    f = g.choice(forms)
+                    if f == "all":
+                        key.append(slice(None, None, None))
+                    elif f == "rev":
+                        key.append(slice(None, None, -1))
+                    elif f == "perm":
+                        p = list(range(ext))
+                        g.shuffle(p)
+                        key.append(p)
+                    else:
+                        a = g.randint(1, self._maxext - ext)
+                        key.append(slice(a, a + ext, None))
+                return {"op": op, "key": enc(key), "rhs": {"kind": "self"}}
             key = self._region_key(m, g, cfg, True, extra)
             newshape = m.region_target_shape(key)
             lists, kept = m.region_lists(key, newshape)
@@ -1059,6 +1084,11 @@ class EngineA:
             if tuple(rhs["shape"]) != rshape or not kept:
                 return "skip"
             R = self._rhs_array(rhs)
+        elif rhs["kind"] == "self":
+            if rshape != tuple(m.shape) or len(kept) != m.order or len(key) != m.order or m.size() == 0 or list(newshape) != list(m.shape):
+                return "skip"
+            R = m.dense().astype(float)  # the values before the assignment
+            res.bump("probe:region_write_from_itself")
         bc, bs = dict(m.cells), list(m.shape)
         m.grow(newshape)
         for idx in itertools.product(*[range(n) for n in rshape]):
@@ -1073,6 +1103,12 @@ class EngineA:
 
             def do_s():
                 w["S"][tuple(key)] = rhs["val"]
+        elif rhs["kind"] == "self":
+            def do_d():
+                w["D"][tuple(key)] = w["D"]
+
+            def do_s():
+                w["S"][tuple(key)] = w["S"]
         else:
             rhs_objs = {}
 
